@@ -393,17 +393,54 @@ def sqrt(x):
     return _np.sqrt(x)
 
 
+def _store_out(res, out):
+    """numpy's out= contract: write the result into `out`, return `out`."""
+    if out is None:
+        return res
+    if not (isinstance(out, _np.ndarray) and out.dtype == object):
+        raise TypeError("symx: out= array cannot hold symbolic values")
+    out[...] = res
+    return out
+
+
 def _uf(name, npf):
-    def f(x, *a, **k):
+    def f(x, *a, out=None, **k):
         if isinstance(x, Q):
             return C.ufun_apply(name, x)
         if isinstance(x, _np.ndarray) and x.dtype == object:
-            return _elementwise(
+            return _store_out(_elementwise(
                 x, lambda v: C.ufun_apply(name, v) if isinstance(v, Q)
-                else npf(v))
+                else npf(v)), out)
+        if out is not None:
+            k['out'] = out
         return npf(x, *a, **k)
     f.__name__ = name
     return f
+
+
+def power(x, y, *a, out=None, **k):
+    if has_sym(x) or has_sym(y):
+        return _store_out(x**y, out)
+    if out is not None:
+        if isinstance(out, _np.ndarray) and out.dtype == object:
+            return _store_out(_np.power(x, y, *a, **k), out)
+        k['out'] = out
+    return _np.power(x, y, *a, **k)
+
+
+def negative(x, *a, out=None, **k):
+    if has_sym(x):
+        return _store_out(-x, out)
+    if out is not None:
+        k['out'] = out
+    return _np.negative(x, *a, **k)
+
+
+def empty_like(a, dtype=None, *args, **kw):
+    if isinstance(a, _np.ndarray) and a.dtype == object and \
+            _is_numeric_dtype(dtype):
+        return _np.empty(a.shape, dtype=object).view(SymArray)
+    return _np.empty_like(a, dtype=dtype, *args, **kw)
 
 
 def round_(x, decimals=0, *a, **k):
@@ -606,7 +643,7 @@ symnp = _Namespace(_np, dict(
     sqrt=sqrt, exp=_uf('exp', _np.exp), log=_uf('ln', _np.log),
     log10=_uf('lg', _np.log10), round=round_, around=round_, sort=sort,
     linalg=_np_linalg, allclose=allclose, isclose=isclose, unique=unique,
-    vstack=vstack,
+    vstack=vstack, power=power, negative=negative, empty_like=empty_like,
     sum=sum_, any=any__, all=all__,
     max=maximum_reduce, amax=maximum_reduce, min=minimum_reduce,
     amin=minimum_reduce, clip=clip,
